@@ -75,8 +75,18 @@ Qed.
 (* non-vacuity: a case-folding reuse under the static compressor *)
 Example transparent_example :
   let c := mkCfg None false KStatic in
-  exists s0 w1 w2,
-    init c = Some s0 /\ acn c [[119;119]; [65]] (b_w s0) = WOk w1 /\ acn c [[120]; [97]] w1 = WOk w2 /\
-    skipn 12 (w_buf w2) = [2;119;119;1;65;0; 1;120;192;15] /\
-    decode_name (w_buf w2) 18 (mlen (w_buf w2)) = Ok ([[120]; [65]], 22).
-Proof. vm_compute. do 3 eexists. repeat split. Qed.
+  match init c with
+  | Some s0 =>
+      match acn c [[119;119]; [65]] (b_w s0) with
+      | WOk w1 =>
+          match acn c [[120]; [97]] w1 with
+          | WOk w2 =>
+              skipn 12 (w_buf w2) = [2;119;119;1;65;0; 1;120;192;15] /\
+              decode_name (w_buf w2) 18 (mlen (w_buf w2)) = Ok ([[120]; [65]], 22)
+          | _ => False
+          end
+      | _ => False
+      end
+  | None => False
+  end.
+Proof. vm_compute. split; reflexivity. Qed.
